@@ -714,6 +714,21 @@ def systematic_histories(rng, thorough):
     return hs
 
 
+def corpus_histories(rng):
+    """minimised past witnesses (harness/corpus/c06/*.json): fixed op lines, run first"""
+    import glob
+    import json
+    import os
+    hs = []
+    here = os.path.join(os.path.dirname(os.path.dirname(os.path.abspath(__file__))), 'corpus', 'c06')
+    for f in sorted(glob.glob(os.path.join(here, '*.json'))):
+        h = History(rng)
+        for line in json.load(open(f))['lines']:
+            h.op(line)
+        hs.append(h)
+    return hs
+
+
 def classify(reply, counts):
     f = reply.split(' ')
     if len(f) < 3:
@@ -738,11 +753,13 @@ def correspond(ctx):
     ctx.note('behavioural probe of the real code: D9 repaired=%s, D17 repaired=%s' % (d9, d17))
     thorough = ctx.tier == 'thorough'
     hs = []
+    hs += corpus_histories(rng)
+    ctx.count('histories:corpus', len(hs))
     hs += systematic_histories(rng, thorough)
     ctx.count('histories:systematic', len(hs))
-    for k in range(6000 if thorough else 220):
+    for k in range(20000 if thorough else 220):
         hs.append(rand_history(rng, rng.choice([6, 12, 25, 60])))
-    for k in range(1500 if thorough else 60):
+    for k in range(4000 if thorough else 60):
         hs.append(tester_history(rng, rng.choice([6, 15, 40])))
     lines = [l for h in hs for l in h.lines]
     model = ctx.lean(DRIVER, lines)
@@ -1178,7 +1195,7 @@ def search(ctx):
         return        # the remaining scenarios presuppose a subsystem that does not wedge
     if systematic_search(ctx):
         return
-    n = 60 if ctx.tier == 'quick' else 4000
+    n = 60 if ctx.tier == 'quick' else 12000
     for k in range(n):
         drop = None if rng.random() < 0.6 else rng.randrange(0, 25)
         desc = {'k': k, 'drop_at': drop}
@@ -1187,7 +1204,7 @@ def search(ctx):
         if sc.bad:
             break
     try:
-        full_stack_scenarios(ctx, rng, 6 if ctx.tier == 'quick' else 150)
+        full_stack_scenarios(ctx, rng, 6 if ctx.tier == 'quick' else 400)
     except Exception as e:
         ctx.note('full-stack scenarios not run: %s: %s' % (type(e).__name__, e))
     # client-level observation (not a finding): see Props tester_zero_length_read_observation
